@@ -244,6 +244,8 @@ INSTANCE_FACTS = [
      "the CamelWord pattern is the language-reference regex"),
     ("inst_shouty_re", "sym_res_eqb shouty_sym code_table [re_shouty]",
      "the ShoutyWord pattern is the language-reference regex"),
+    ("inst_number_res", "sym_res_eqb number_sym code_table re_numbers",
+     "the Number patterns are the eight reference formats"),
 ]
 
 
@@ -260,7 +262,7 @@ def write_instance(ctx, gen_dir):
     inst = os.path.join(gen_dir, "LexInstance_C10.v")
     src = open(os.path.join(fw.THEORIES, "Lex", "InstanceTemplate.v.in")).read()
     with open(inst, "w") as f:
-        f.write(src.replace("@TABLE@", "EmbossVGen." + GEN_TABLE).replace("@NUMBER_FACTS@", ""))
+        f.write(src.replace("@TABLE@", "EmbossVGen." + GEN_TABLE))
     return facts, inst
 
 
@@ -309,6 +311,20 @@ def _phase(ctx, name):
     ctx._phase_last = (now, cpu)
 
 
+def audit_closure(ctx):
+    """Audit (forbidden vernacular) of the .v files this check depends on: theories/Lex and theories/Lib.
+    (fw.Ctx.audit covers the whole tree, including other properties' work in progress.)"""
+    import glob
+    files = sorted(glob.glob(os.path.join(fw.THEORIES, "Lex", "*.v")) + glob.glob(os.path.join(fw.THEORIES, "Lib", "*.v")))
+    problems = []
+    for f in files:
+        problems += fw.audit_file(f)
+    ctx.extra["audit_files"] = len(files)
+    ctx.obligation("audit: no Admitted/Axiom/Parameter/guard-off in the %d .v files of the closure (Lex/, Lib/)" % len(files), not problems)
+    if problems:
+        ctx.violation("audit", "forbidden vernacular: " + "; ".join(problems[:5]), dict(kind="audit", problems=problems), found_input=False)
+
+
 def run(ctx):
     if fw.REPO not in sys.path[:1]:
         sys.path.insert(0, fw.REPO)
@@ -323,7 +339,7 @@ def run(ctx):
                    "harness/props/c10.py, harness/lex_gen.py", "CPython 3.12 re / str.splitlines / str.isspace"]
     ctx.assumptions = ["Python's backtracking re.match returns the longest match for the table's patterns (tested on every sampled string; a difference shows as a disagreement)",
                        "the model reads the tables the way _tokenize_line does (literals first, then regexes; hand-modelled control flow, tested by the correspondence)"]
-    ctx.audit()
+    audit_closure(ctx)
     thm_ok = ctx.check_theorems("EmbossV.Lex.Properties_C10", "Lex/Properties_C10.v", expect_min=12)
     _phase(ctx, "theorems (make + Print Assumptions)")
 
@@ -356,38 +372,41 @@ def run(ctx):
     if thm_ok:
         rcm, outm = fw.coq_make(["Lex/Instance.vo"])
         facts_v, inst_v = write_instance(ctx, fw.GEN)
-        rc, out = fw.coqc(facts_v, timeout=600) if rcm == 0 else (rcm, outm)
-        if rc != 0:
-            ctx.obligation("instance facts evaluate", False)
-            ctx.violation("proof-broken:Lex/Instance", "instance facts file failed", dict(kind="proof", log=out[-3000:]), found_input=False)
+        rc, out = fw.coqc(inst_v, timeout=900) if rcm == 0 else (rcm, outm)
+        names = fw.theorem_names(inst_v)
+        if rc == 0:
+            # every fact is the statement of one of the instance theorems that just checked
+            for name, term, meaning in INSTANCE_FACTS:
+                ctx.obligation("instance: %s  (%s)" % (name, meaning), True)
+            res = fw.collect_assumptions(ctx, "EmbossVGen.LexInstance_C10", inst_v, names)
+            for n_ in names:
+                axs = (res or {}).get(n_, ["<unavailable>"])
+                ctx.obligation("instance theorem " + n_, not axs, axs)
+                if axs:
+                    ctx.violation("axiom:" + n_, "instance theorem %s depends on %s" % (n_, axs),
+                                  dict(kind="axiom", theorem=n_, axioms=axs), found_input=False)
         else:
-            txt = open(os.path.join(fw.GEN, "LexFacts_C10.out")).read()
-            vals = [w == "true" for w in __import__("re").findall(r"\b(true|false)\b", txt.split("=", 1)[1].rsplit(":", 1)[0])]
-            if len(vals) != len(INSTANCE_FACTS):
-                vals = [False] * len(INSTANCE_FACTS)
-            for (name, term, meaning), v in zip(INSTANCE_FACTS, vals):
-                ctx.obligation("instance: %s  (%s)" % (name, meaning), v)
-                if not v:
-                    broken_facts.append((name, meaning))
-            if not broken_facts:
-                rc, out = fw.coqc(inst_v, timeout=900)
-                names = fw.theorem_names(inst_v)
-                if rc != 0:
-                    for n_ in names:
-                        ctx.obligation("instance theorem " + n_, False)
-                    ctx.violation("proof-broken:LexInstance", "instance theorems on the regenerated table do not check",
-                                  dict(kind="proof", file=inst_v, log=out[-3000:]), found_input=False)
-                else:
-                    res = fw.collect_assumptions(ctx, "EmbossVGen.LexInstance_C10", inst_v, names)
-                    for n_ in names:
-                        axs = (res or {}).get(n_, ["<unavailable>"])
-                        ctx.obligation("instance theorem " + n_, not axs, axs)
-                        if axs:
-                            ctx.violation("axiom:" + n_, "instance theorem %s depends on %s" % (n_, axs),
-                                          dict(kind="axiom", theorem=n_, axioms=axs), found_input=False)
-                ctx.extra["audit_generated"] = fw.audit_file(inst_v) + fw.audit_file(table_v)
-                if ctx.extra["audit_generated"]:
-                    ctx.violation("audit", "forbidden vernacular in generated files", dict(kind="audit", problems=ctx.extra["audit_generated"]), found_input=False)
+            # which fact about the regenerated table broke?
+            rc2, out2 = fw.coqc(facts_v, timeout=600) if rcm == 0 else (rcm, outm)
+            vals = None
+            if rc2 == 0:
+                txt = open(os.path.join(fw.GEN, "LexFacts_C10.out")).read()
+                vals = [w == "true" for w in __import__("re").findall(r"\b(true|false)\b", txt.split("=", 1)[1].rsplit(":", 1)[0])]
+            if not vals or len(vals) != len(INSTANCE_FACTS) or all(vals):
+                for n_ in names:
+                    ctx.obligation("instance theorem " + n_, False)
+                ctx.violation("proof-broken:LexInstance", "instance theorems on the regenerated table do not check",
+                              dict(kind="proof", file=inst_v, log=(out + out2)[-3000:]), found_input=False)
+            else:
+                for (name, term, meaning), v in zip(INSTANCE_FACTS, vals):
+                    ctx.obligation("instance: %s  (%s)" % (name, meaning), v)
+                    if not v:
+                        broken_facts.append((name, meaning))
+                for n_ in names:
+                    ctx.obligation("instance theorem " + n_, False)
+        ctx.extra["audit_generated"] = fw.audit_file(inst_v) + fw.audit_file(table_v)
+        if ctx.extra["audit_generated"]:
+            ctx.violation("audit", "forbidden vernacular in generated files", dict(kind="audit", problems=ctx.extra["audit_generated"]), found_input=False)
 
     _phase(ctx, "instance facts and theorems")
     # ---- (C) correspondence ------------------------------------------------------------
